@@ -1535,9 +1535,10 @@ class Bits:
         """Convert the bitstring to a bitarray object."""
         if self._bitstore.modified_length is not None:
             # Removes the offset and truncates to length
-            return self._bitstore.getslice(0, len(self))._bitarray
+            return self._bitstore.getslice_msb0(0, len(self))._bitarray
         else:
-            return self._bitstore._bitarray
+            # A copy, so that changing the returned bitarray can't change this bitstring.
+            return bitarray.bitarray(self._bitstore._bitarray)
 
     def tofile(self, f: BinaryIO) -> None:
         """Write the bitstring to a file object, padding with zero bits if needed.
